@@ -210,7 +210,9 @@ func removeFromSlice(sl []string, s ...string) []string {
 			if len(sl) == 1 {
 				return nil
 			}
-			sl = slices.Delete(sl, idx, idx+1)
+			// Sources are copied by value (every (lhs, rhs) pair of a binary expression gets a copy) and share
+			// the backing arrays of their label slices; deleting in place corrupts the other copies.
+			sl = slices.Delete(slices.Clone(sl), idx, idx+1)
 		}
 	}
 	return sl
